@@ -22,6 +22,123 @@ def selfN(a):
     return a.tenv.length(adt_args(a.body["impl_self"])[1]) if is_ga(a.body["impl_self"]) else None
 
 
+def provenance_rule(ctx, cfg, key, spec, pre=None, cases=None, rule="C09.M"):
+    """Decide an owned sequence operation by byte provenance (segmap): on every return path, each component of the result is made of
+    exactly the bytes of the inputs the Vec-operation specification names, the inputs are moved (never dropped afterwards) and no foreign code runs.
+    spec(a, S, N) -> list over result components of [(size, origin arg, origin offset), ...]; cases: alternative extra fact lists that together
+    cover the precondition (each case is decided separately with its own expected map)."""
+    from ..segmap import Engine, same_map, path_calls
+    from ..typestate import Classifier, has_generic
+    b = ctx.body(cfg, key, rule)
+    if b is None:
+        return 0
+    a = ctx.analysis_inl(cfg, key, split=True, force="*", keep=("const_transmute",), tag="prov")
+    T = adt_args(b["impl_self"])[0]
+    S = a.tenv.size(T)
+    N = selfN(a)
+    cl = Classifier(ctx.db(cfg))
+    problems, notes = [], []
+    if not a.returns:
+        problems.append("no return path")
+    foreign = [c.fn for c in a.calls if cl.classify(c, a.body) == "foreign"]
+    if foreign:
+        problems.append("calls that can run foreign code inside a pure regrouping: %s" % sorted(set(foreign)))
+    # the inputs are moved out bytewise: dropping one of them afterwards would drop the elements a second time
+    dropped = [d["place"]["l"] for d in a.drops if not d["cleanup"] and not d["place"]["p"] and d["place"]["l"] in range(1, a.mir["arg_count"] + 1) and has_generic(d["ty"])]
+    if dropped:
+        problems.append("by-value input(s) _%s are dropped on the normal path although their elements were moved into the result" % sorted(set(dropped)))
+    case_list = cases(a, S, N) if cases else [("", [], None)]
+    for r in a.returns:
+        calls = path_calls(a, r)
+        if calls is None:
+            problems.append("return path not unique (loop or too many paths)")
+            continue
+        rty = a.local_ty(0)
+        comps = list(zip(r["val"][2], rty["ts"])) if r["val"][0] == "A" and r["val"][1] == "tuple" and rty.get("k") == "tuple" else [(r["val"], rty)]
+        for cname, cfacts, cspec in case_list:
+            facts = set(r["facts"]) | set(pre(a, S, N) if pre else []) | set(cfacts)
+            for c in calls:
+                facts |= set(c.facts)
+            eng = Engine(a, facts)
+            if not eng.replay(calls):
+                problems.append("provenance not decided%s: %s" % (cname, eng.fail))
+                continue
+            want_all = (cspec or spec)(a, S, N)
+            if len(want_all) != len(comps):
+                problems.append("result has %d component(s), the specification %d" % (len(comps), len(want_all)))
+                continue
+            for i, ((v, ty), want) in enumerate(zip(comps, want_all)):
+                pv = eng.prov(v, ty)
+                if pv is None:
+                    problems.append("provenance of result component %d%s unknown (%s)" % (i, cname, eng.fail or vstr(v)))
+                elif not same_map(eng, pv[0], want):
+                    problems.append("result component %d%s is made of %r; specification: %s" % (
+                        i, cname, pv[0], "; ".join("%r bytes of arg%d+%r" % (sz, o[1], f) for sz, o, f in want)))
+                else:
+                    notes.append("component %d%s <- %r" % (i, cname, pv[0]))
+    st = PROVED if not problems else (UNKNOWN if all(p.startswith("provenance not decided") or "unknown" in p for p in problems) else REFUTED)
+    det = "; ".join(sorted(set(problems))) if problems else "every result byte comes from the input byte the specification names: " + " | ".join(sorted(set(notes)))
+    ctx.ob(rule, key, st, det[:1400], at=b["at"], cfg=cfg)
+    ctx.sample({"rule": rule, "fn": key, "cfg": cfg, "piece_map": det[:500]})
+    return 1
+
+
+A1, A2 = ("arg", 1), ("arg", 2)
+Z = Poly.const(0)
+
+
+def len_of_local(a, n):
+    t = strip_wrappers(a.local_ty(n))
+    return a.tenv.length(adt_args(t)[1]) if is_ga(t) else None
+
+
+def check_owned_ops(ctx, cfg, rule="C09.M"):
+    """The eight owned sequence operations against their Vec-operation specifications, by byte provenance."""
+    n = 0
+    K_of = lambda a: a.tenv.length({"k": "param", "n": a.body["generics"][2]["n"]})
+    idx = Poly.atom(("arg", 2))
+    n += provenance_rule(ctx, cfg, SEQ % ("Lengthen<$0>", "append"), lambda a, S, N: [[(N * S, A1, Z), (S, A2, Z)]], rule=rule)
+    n += provenance_rule(ctx, cfg, SEQ % ("Lengthen<$0>", "prepend"), lambda a, S, N: [[(S, A2, Z), (N * S, A1, Z)]], rule=rule)
+    n += provenance_rule(ctx, cfg, SEQ % ("Shorten<$0>", "pop_back"), lambda a, S, N: [[((N - 1) * S, A1, Z)], [(S, A1, (N - 1) * S)]],
+                         pre=lambda a, S, N: [("poly", ">=", N - 1)], rule=rule)
+    n += provenance_rule(ctx, cfg, SEQ % ("Shorten<$0>", "pop_front"), lambda a, S, N: [[(S, A1, Z)], [((N - 1) * S, A1, S)]],
+                         pre=lambda a, S, N: [("poly", ">=", N - 1)], rule=rule)
+    n += provenance_rule(ctx, cfg, SEQ % ("Split<$0,$2>", "split"), lambda a, S, N: [[(K_of(a) * S, A1, Z)], [((N - K_of(a)) * S, A1, K_of(a) * S)]],
+                         pre=lambda a, S, N: [("poly", ">=", N - K_of(a))], rule=rule)
+    n += provenance_rule(ctx, cfg, "<GenericArray<$0,$1> as Concat<$0,$2>>::concat", lambda a, S, N: [[(N * S, A1, Z), (len_of_local(a, 2) * S, A2, Z)]], rule=rule)
+    # remove(idx): (self[idx], self[0,idx) ++ self[idx+1,N))      precondition idx < N (established by C09.A at the only callers)
+    n += provenance_rule(ctx, cfg, "<GenericArray<$0,$1> as Remove<$0,$1>>::remove_unchecked",
+                         lambda a, S, N: [[(S, A1, idx * S)], [(idx * S, A1, Z), ((N - 1 - idx) * S, A1, (idx + 1) * S)]],
+                         pre=lambda a, S, N: [("poly", ">=", N - idx - 1)], rule=rule)
+    # swap_remove(idx): (self[idx], self with slot idx taken by the last element, truncated)   - two cases of the precondition idx < N
+    n += provenance_rule(ctx, cfg, "<GenericArray<$0,$1> as Remove<$0,$1>>::swap_remove_unchecked", None,
+                         pre=lambda a, S, N: [("poly", ">=", N - idx - 1)],
+                         cases=lambda a, S, N: [
+                             (" (case idx < N-1)", [("poly", ">=", N - idx - 2)], lambda a, S, N: [[(S, A1, idx * S)], [(idx * S, A1, Z), (S, A1, (N - 1) * S), ((N - 2 - idx) * S, A1, (idx + 1) * S)]]),
+                             (" (case idx == N-1)", [("poly", "==", N - idx - 1)], lambda a, S, N: [[(S, A1, idx * S)], [((N - 1) * S, A1, Z)]]),
+                         ], rule=rule)
+    return n
+
+
+def check_unreachable_hints(ctx, cfg):
+    n = 0
+    for name in ("remove_unchecked", "swap_remove_unchecked"):
+        key = "<GenericArray<$0,$1> as Remove<$0,$1>>::" + name
+        b = ctx.db(cfg).get(key)
+        if b is None:
+            continue
+        a = ctx.analysis(cfg, key)
+        N = selfN(a)
+        idx = Poly.atom(("arg", 2))
+        pre = frozenset([("poly", ">=", N - idx - 1)])
+        for i, c in enumerate(a.calls_to("core::hint::unreachable_unchecked")):
+            pf = a.poly_facts(c.facts | pre)
+            infeasible = prove((">=", Poly.const(-1)), pf)
+            ctx.ob("C09.U", "%s#unreachable#%d" % (key, i), infeasible, "hint reached under %s; infeasible given idx < N: %s" % (fstr(c.facts), infeasible), at=b["at"], cfg=cfg)
+        n += 1
+    return n
+
+
 def check_lengthen(ctx, cfg, name, first_is_self):
     rule = "C09.M"
     key = SEQ % ("Lengthen<$0>", name)
@@ -271,16 +388,9 @@ def check(ctx):
     ctx.need(*cfgs)
     for cfg in cfgs:
         n = 0
-        n += check_lengthen(ctx, cfg, "append", True)
-        n += check_lengthen(ctx, cfg, "prepend", False)
-        n += check_reads(ctx, cfg, SEQ % ("Shorten<$0>", "pop_back"), "(self[0,N-1), self[N-1])", lambda a, S, N: [(Poly.const(0), 0), ((N - 1) * S, 1)])
-        n += check_reads(ctx, cfg, SEQ % ("Shorten<$0>", "pop_front"), "(self[0], self[1,N))", lambda a, S, N: [(Poly.const(0), 0), (S, 1)])
-        n += check_reads(ctx, cfg, SEQ % ("Split<$0,$2>", "split"), "(self[0,K), self[K,N))",
-                         lambda a, S, N: [(Poly.const(0), 0), (a.tenv.length({"k": "param", "n": a.body["generics"][2]["n"]}) * S, 1)])
-        n += check_concat(ctx, cfg)
+        n += check_owned_ops(ctx, cfg)
         n += check_ref_split(ctx, cfg, "<&GenericArray<$0,$1> as Split<$0,$2>>::split")
         n += check_ref_split(ctx, cfg, "<&mut GenericArray<$0,$1> as Split<$0,$2>>::split")
         n += check_remove_wrappers(ctx, cfg)
-        n += check_unchecked(ctx, cfg, "remove_unchecked")
-        n += check_unchecked(ctx, cfg, "swap_remove_unchecked")
+        n += check_unreachable_hints(ctx, cfg)
         ctx.floor("C09", "sequence-operation bodies analysed (%s)" % cfg, n, 12)
